@@ -73,6 +73,8 @@ def analysis_calls(case, inst, projs, rng):
     alloc_names = core.gen_init(rng, case) or (names[:1] if names and case.cost[names[0]] <= case.budget else [])
     alloc = [projs[n] for n in alloc_names]
     sats = list(core.SAT_BY_TYPE[bt]) + [s for s in core.SAT_NONADD[bt] if s == "CC_Sat"]
+    if bt != "app":
+        sats += ["Effort_Sat", "Cost_Sat"]  # the approval-style measures only ask `project in ballot`: they apply to every ballot type
     calls = []
     calls.append(("avg_ballot_length", A.avg_ballot_length, lambda p: (inst, p)))
     calls.append(("median_ballot_length", A.median_ballot_length, lambda p: (inst, p)))
@@ -134,7 +136,7 @@ def check_election(ctx, case, small, objs=None):
         M = P.as_multiprofile()
     # measures
     bt = case.btype
-    for s in list(core.SAT_BY_TYPE[bt]) + core.SAT_NONADD[bt] + core.SAT_FLOAT_ADD.get(bt, []):
+    for s in list(core.SAT_BY_TYPE[bt]) + core.SAT_NONADD[bt] + core.SAT_FLOAT_ADD.get(bt, []) + (["Effort_Sat", "Cost_Sat"] if bt != "app" else []):
         sc = core.sat_class(s)
         try:
             spP = P.as_sat_profile(sc)
